@@ -1,4 +1,5 @@
 import Model.Session
+import Model.Forest
 /-! # C14 — errors stay in documented classes; "not submitted" means no byte was sent
 
 Model: the request entry points of `Model.Session` at the moment they return
@@ -134,5 +135,39 @@ theorem C14_ping_max (s : S) (tag : String) (h : s.ping.isSome) : s.pingCall tag
 /-- IsDeny and IsEnd are disjoint on the classes the model produces -/
 theorem C14_deny_end_disjoint : mkErr ["deny"] ≠ mkErr ["closed"] ∧ mkErr ["deny"] ≠ mkErr ["canceled"] ∧
     mkErr ["deny"] ≠ mkErr ["abandoned"] := by decide
+
+
+/-! ## The classifier behind IsDeny, IsEnd and Backoff, on error values of any shape -/
+
+/-- `nonNilIsAny(err, targets)` answers "is some node of the error tree one of the targets" - what `errors.Is` against
+any of the targets answers - for every error value: sentinels, `%w` wrappers (with or without a wrapped error), joins
+of any width and nesting. The loop with its explicit work list never loses a pending sibling and never runs out of fuel. -/
+theorem C14_classifier_spec (m : Nat → Bool) (err : E) : isAny m err = err.has m := isAny_spec m err
+
+/-- `IsDeny` is true exactly for values that contain one of the deny sentinels of the regenerated table -/
+theorem C14_isDeny_iff (e : E) : isDeny e = e.has (isTarget Facts.denyErrs) := isAny_spec _ e
+
+/-- `IsEnd` is true exactly for values that contain ErrClosed, ErrCanceled or ErrAbandoned -/
+theorem C14_isEnd_iff (e : E) : isEnd e = e.has (isTarget Facts.endErrs) := isAny_spec _ e
+
+/-- no sentinel is both a deny and an end error (so a plain or wrapped sentinel never is IsDeny and IsEnd at once) -/
+theorem C14_deny_end_tables_disjoint (id : Nat) : ¬ (isTarget Facts.denyErrs id = true ∧ isTarget Facts.endErrs id = true) := by
+  unfold isTarget
+  cases h : sentinelName id with
+  | none => simp
+  | some n =>
+    intro ⟨h1, h2⟩
+    have hd : Facts.denyErrs = ["errPacketMax", "errStringMax", "errUTF8", "errNull", "errZero", "errSubscribeNone", "errUnsubscribeNone"] := rfl
+    have he : Facts.endErrs = ["ErrClosed", "ErrCanceled", "ErrAbandoned"] := rfl
+    rw [hd] at h1; rw [he] at h2
+    simp at h1 h2
+    rcases h1 with rfl | rfl | rfl | rfl | rfl | rfl | rfl <;> simp at h2
+
+/-- the classification of a wrapped chain is the classification of its innermost sentinel -/
+theorem C14_wrap_transparent (m : Nat → Bool) (i : Nat) (c : E) (hi : m i = false) : isAny m (.wrap i c) = isAny m c := by
+  rw [isAny_spec, isAny_spec]; simp [E.has, hi]
+
+example : isEnd (.join 1000 (.cons (.wrap 1000 (.join 1000 (.cons (.leaf 5) (.cons (.leaf 30) .nil)))) (.cons (.wrap 1000 (.leaf 1)) .nil))) = true := by
+  rw [C14_isEnd_iff]; decide
 
 end Model
